@@ -324,6 +324,11 @@ func (x *Exec) storeSet(st *State, h *storeHandle, key T, val T) {
 	fam, args, _ := x.classifyKey(h.Name, x.fullKey(h, key), false)
 	x.recordFam(fam, true)
 	k := fam.keyTerm(args, x.fail)
+	if fam.Codec == "u64" && x.nopanic && x.root != nil && len(x.root.NoPanicOnly) == 0 {
+		// readers of a counter family decode 8 bytes (binary.BigEndian.Uint64 panics on less): every write of a
+		// function under a no-panic contract keeps the width, so the readers' precondition is an invariant
+		x.emit(st, "nopanic", x.oblName("counter-width@"+fam.Name), "", Eq(StrLen(val), IntLit(8)))
+	}
 	s := st.Worlds[h.World][h.Name]
 	st.Worlds[h.World][h.Name] = T{S: fmt.Sprintf("(store %s %s (some %s))", s.S, k.S, val.S), So: s.So}
 	if st.GWrit != nil {
@@ -389,6 +394,10 @@ func (x *Exec) newIterator(st *State, h *storeHandle, reverse bool, pos string) 
 		return fmt.Sprintf("(= (K_%s_%d %s) %s)", fam.Name, a, k, f.S)
 	}
 	posObj := x.e.newObj(st, IntLit(0))
+	if x.e.iterPosObjs == nil {
+		x.e.iterPosObjs = map[int]bool{}
+	}
+	x.e.iterPosObjs[posObj] = true
 	data["pos"] = IntLit(int64(posObj))
 	it := &OpaqueV{Tag: "iter", Data: data}
 	// membership / distinctness / order / completeness axioms
